@@ -1,7 +1,7 @@
 /-
   C17 — source tie.  `TaurexModel/Gen/SrcC17.lean` is regenerated on every run by the list dialect of the source translator
   (`harness/translate_list.py`) from the source text of taurex/data/spectrum/array.py, taurex/data/spectrum/spectrum.py,
-  taurex/binning/fluxbinner.py and taurex/util/util.py.  The theorems below state, for EVERY carrier (no algebra is used),
+  taurex/data/spectrum/taurex.py, taurex/data/spectrum/observed.py, taurex/binning/fluxbinner.py and taurex/util/util.py.  The theorems below state, for EVERY carrier (no algebra is used),
   that each regenerated definition computes the hand-written model function of `TaurexModel/Observation.lean` that the C17
   theorems are about and that `driver_c17` executes.  numpy's primitives are the definitions of
   `TaurexModel/Gen/Prelude.lean`; helper lemmas in `Proofs/C05SrcNp.lean`, `Proofs/C17SrcNp.lean`.
@@ -163,6 +163,60 @@ theorem src_bin_model_obs (fc : Bool) (o : Obs α) (h : o.wnWidths.length = o.ro
         (SrcC17.create_binner (o.rows.map (encode fc)) o.wnWidths).2).2.1 = o.binModel native := by
   rw [src_create_binner fc o h]
   exact src_bindown_midpoint native o.createBinner
+
+/-! ### the file loaders `TaurexSpectrum` (HDF5) and `ObservedSpectrum` (text)
+
+The content of the file is an input of the regenerated definitions: the four datasets `_load_from_hdf5` reads are the
+parameters `h5_Output_Spectra_instrument_* : Option (List α)` (named after the path strings of the source text; `none`: the
+file has no such object, the read raises KeyError), the array `np.loadtxt(self._filename)` returns is `loadtxt filename`.
+A TauREx file is described by its rows `(wn, spectrum, noise, wn width)` — the four datasets are the four columns. -/
+
+/-- **`TaurexSpectrum._load_from_hdf5(filename)`**: the array `np.vstack((10000/wn, spectrum, noise,
+    wnwidth_to_wlwidth(wn, wnwidth))).T` it returns is, row by row, the model's `fromTaurex` (what `driver_c17` maps over
+    the rows for `kind = 2`) -/
+theorem src_load_from_hdf5 (fn : String) (rows : List (ORow α)) :
+    SrcC17.load_from_hdf5 fn (h5_Output_Spectra_instrument_wngrid := some (rows.map ORow.wl))
+        (h5_Output_Spectra_instrument_spectrum := some (rows.map ORow.v))
+        (h5_Output_Spectra_instrument_noise := some (rows.map ORow.e))
+        (h5_Output_Spectra_instrument_wnwidth := some (rows.map ORow.bw))
+      = (rows.map fromTaurex).map (encode true) := by
+  simp only [SrcC17.load_from_hdf5]
+  rw [src_wnwidth_to_wlwidth _ _ (Or.inl (by simp)), Np.zipWith_map_map, List.map_map]
+  have := Np.transpose_maps (0 : α) (fun r : ORow α => 10000 / r.wl) [ORow.v, ORow.e, fun r => widthConv r.wl r.bw] rows
+  simp only [List.map_cons, List.map_nil] at this
+  simp only [Function.comp_def]
+  rw [this]
+  simp [encode, fromTaurex, List.map_map, Function.comp_def]
+
+/-- a file without one of the four instrument datasets (a retrieval output, or a forward model run without an
+    instrument): every path ends in the `KeyError` (the declared total value `[]`), whichever dataset is missing -/
+theorem src_load_from_hdf5_missing (fn : String) (wn sp no ww : Option (List α))
+    (h : wn = none ∨ sp = none ∨ no = none ∨ ww = none) :
+    SrcC17.load_from_hdf5 fn (h5_Output_Spectra_instrument_wngrid := wn)
+        (h5_Output_Spectra_instrument_spectrum := sp) (h5_Output_Spectra_instrument_noise := no)
+        (h5_Output_Spectra_instrument_wnwidth := ww) = [] := by
+  cases wn <;> cases sp <;> cases no <;> cases ww <;> simp_all [SrcC17.load_from_hdf5]
+
+/-- **`TaurexSpectrum.__init__(filename)`** = `super().__init__(self._load_from_hdf5(filename))`: the attributes are the
+    fields of `load true (rows.map fromTaurex)` — exactly what `driver_c17` computes for `kind = 2`.  `ncols`
+    (`rawData.shape[1]`) is 4: the transposed stack of four arrays. -/
+theorem src_taurexspectrum_init (fn : String) (rows : List (ORow α)) :
+    SrcC17.taurexspectrum_init fn (h5_Output_Spectra_instrument_wngrid := some (rows.map ORow.wl))
+        (h5_Output_Spectra_instrument_spectrum := some (rows.map ORow.v))
+        (h5_Output_Spectra_instrument_noise := some (rows.map ORow.e))
+        (h5_Output_Spectra_instrument_wnwidth := some (rows.map ORow.bw)) (ncols := ncols true)
+      = ((load true (rows.map fromTaurex)).rows.map (encode true), (load true (rows.map fromTaurex)).bw,
+          (load true (rows.map fromTaurex)).edgesWl, (load true (rows.map fromTaurex)).wnWidths) := by
+  simp only [SrcC17.taurexspectrum_init, src_load_from_hdf5, src_init]
+
+/-- **`ObservedSpectrum.__init__(filename)`** = `super().__init__(np.loadtxt(self._filename))`: everything after
+    `np.loadtxt` (sorting, column handling, bin edges, width conversion) is `load fourCol rows` of the rows of the array
+    `np.loadtxt` returned for this file name -/
+theorem src_observedspectrum_init (fc : Bool) (fn : String) (loadtxt : String → List (List α)) (rows : List (ORow α))
+    (h : loadtxt fn = rows.map (encode fc)) :
+    SrcC17.observedspectrum_init fn loadtxt (ncols fc)
+      = ((load fc rows).rows.map (encode fc), (load fc rows).bw, (load fc rows).edgesWl, (load fc rows).wnWidths) := by
+  simp only [SrcC17.observedspectrum_init, h, src_init]
 
 end
 end Taurex.C17Src
